@@ -645,6 +645,7 @@ func (st *State) bytesOf(v Val) string {
 	e := st.e
 	et := v.T.Underlying().(*types.Slice).Elem()
 	a := st.arr(elemsName(e, et, ""), arr2Sort(SInt))
+	st.instantiateForArray(elemsName(e, et, ""), v.C[0])
 	// nil/empty slice has empty content
 	return ite(eq(v.C[2], "0"), "0", fmt.Sprintf("(bytesof (select %s %s) %s %s)", a, v.C[0], v.C[1], v.C[2]))
 }
@@ -807,7 +808,7 @@ func (st *State) indexAddr(fr *Frame, x *ssa.IndexAddr) Val {
 	if _, isStruct := et.Underlying().(*types.Struct); isStruct && !isTimeTime(et) && !e.opaqueStruct(et) {
 		root := fmt.Sprintf("(el %s %s)", baseTerm, pos)
 		st.nonnil[root] = true
-		st.assume(fmt.Sprintf("(and (= (el_base %s) %s) (= (el_idx %s) %s) (> %s 1000))", root, baseTerm, root, pos, root))
+		st.assume(fmt.Sprintf("(and (= (el_base %s) %s) (= (el_idx %s) %s) (< %s (- 1000)))", root, baseTerm, root, pos, root))
 		p = &Ptr{Kind: PObj, Root: root, RootT: et, T: et}
 	} else if e.opaqueStruct(et) {
 		root := fmt.Sprintf("(el %s %s)", baseTerm, pos)
